@@ -85,6 +85,49 @@ def make_point(sel, rings, hole_rings, bbox):
     raise HarnessError(f"unknown point selector {kind}")
 
 
+def cell_hits(xy, polygons, cells, defined):
+    """Sorted list of the cells that contain or touch the point: exact rational arithmetic on
+    the spec's corners where the statements define the cell, cross-checked against a brute-force
+    scan of emsarray's polygons (which is the only oracle where they do not)."""
+    n_faces = len(polygons)
+    point = shapely.Point(xy)
+    brute = [m for m in range(n_faces)
+             if polygons[m] is not None and polygons[m].intersects(point)]
+    if not defined:
+        return brute
+    exact = [m for m in range(n_faces)
+             if cells[m] is not None and refmodel.point_in_closed_polygon(xy, cells[m])]
+    if exact != brute:
+        # Either emsarray's polygons are not the dataset's cells (C06's business, but it
+        # invalidates this oracle) or GEOS and exact arithmetic disagree.
+        same_geometry = all(
+            (polygons[m] is None) == (cells[m] is None)
+            and (cells[m] is None or refmodel.ring_normal_form(refmodel.polygon_ring(polygons[m]))
+                 == refmodel.ring_normal_form(cells[m]))
+            for m in range(n_faces))
+        if same_geometry:
+            raise HarnessError(f"oracles disagree at {xy}: exact {exact} brute {brute}")
+    return exact
+
+
+def case_geometry(spec, conv):
+    """(polygons, cells, defined, rings, hole_rings, bbox) for point generation; bbox is None
+    when the dataset has no cell geometry at all."""
+    polygons = conv.polygons
+    defined = refmodel.cells_defined_by_statement(spec)
+    cells = refmodel.cells(spec)
+    if defined:
+        rings = cells
+    else:
+        rings = [None if p is None else refmodel.polygon_ring(p)[:-1] for p in polygons]
+    hole_rings = _hole_rings(spec) if defined else []
+    if not any(r is not None for r in rings):
+        return polygons, cells, defined, rings, hole_rings, None
+    xs = [p[0] for r in rings if r is not None for p in r]
+    ys = [p[1] for r in rings if r is not None for p in r]
+    return polygons, cells, defined, rings, hole_rings, (min(xs), min(ys), max(xs), max(ys))
+
+
 def check_case(case, ctx):
     spec = case["spec"]
     ds, conv = open_case(spec)
@@ -114,24 +157,7 @@ def check_case(case, ctx):
         if xy is None:
             continue
         point = shapely.Point(xy)
-        brute = [m for m in range(n_faces)
-                 if polygons[m] is not None and polygons[m].intersects(point)]
-        if defined:
-            exact = [m for m in range(n_faces)
-                     if cells[m] is not None and refmodel.point_in_closed_polygon(xy, cells[m])]
-            if exact != brute:
-                # Either emsarray's polygons are not the dataset's cells (C06's business, but it
-                # invalidates this oracle) or GEOS and exact arithmetic disagree.
-                same_geometry = all(
-                    (polygons[m] is None) == (cells[m] is None)
-                    and (cells[m] is None or refmodel.ring_normal_form(refmodel.polygon_ring(polygons[m]))
-                         == refmodel.ring_normal_form(cells[m]))
-                    for m in range(n_faces))
-                if same_geometry:
-                    raise HarnessError(f"oracles disagree at {xy}: exact {exact} brute {brute}")
-            hits = exact
-        else:
-            hits = brute
+        hits = cell_hits(xy, polygons, cells, defined)
         ctx.label("point:" + sel["kind"])
         if len(hits) >= 2:
             saw_tie = True
